@@ -20,6 +20,7 @@ type genUpd struct {
 	fd    *model.FilterType
 	abs   absUpdate
 	shape string
+	partialFirst bool // both filters present: the partial one comes first in the array
 }
 
 // idsFor builds key values for an item: first key from {0..3}, second from {0,1}, others 0.
@@ -106,7 +107,23 @@ func genUpdate(w *World, info FnInfo, cur absList, wc func() *bool) *genUpd {
 	// a selector naming the identifier of an existing item (mostly) or of none
 	selector := func() any {
 		ids := idsFor(w, info)
-		return GenSelector(info, ids)
+		sel := GenSelector(info, ids)
+		if sel != nil && w.T.Bool(1, 5, "selector-names-a-list-valued-element") {
+			// a selector member whose namesake in the items is a list: such a selector matches
+			// nothing (and must not upset anything)
+			sv := reflect.ValueOf(sel).Elem()
+			for i := 0; i < sv.NumField(); i++ {
+				f := sv.Field(i)
+				itf, ok := info.ItemType.FieldByName(sv.Type().Field(i).Name)
+				if ok && itf.Type.Kind() == reflect.Slice && f.Kind() == reflect.Ptr && f.IsNil() && scalarKind(f.Type().Elem().Kind()) {
+					p := reflect.New(f.Type().Elem())
+					w.setScalarValue(p.Elem())
+					f.Set(p)
+					w.Probe("c02-selector-names-list-valued-element")
+				}
+			}
+		}
+		return sel
 	}
 	emptyData := reflect.New(info.DataType).Interface()
 	shape := w.T.Choose(12, "update-shape")
@@ -187,6 +204,9 @@ func genUpdate(w *World, info FnInfo, cur absList, wc func() *bool) *genUpd {
 		u.fd = MakeFilter(info, "delete", selector(), nil)
 		u.fp = MakeFilter(info, "partial", nil, nil)
 	}
+	if u.fp != nil && u.fd != nil {
+		u.partialFirst = w.T.Bool(1, 2, "partial-filter-listed-first")
+	}
 	u.abs = absUpdate{data: absOf(info, u.data), desc: u.shape}
 	if u.fp != nil {
 		u.abs.hasPartial = true
@@ -217,6 +237,10 @@ func (u *genUpd) cmdFor(info FnInfo) model.CmdType {
 		}
 		if u.fp != nil {
 			cmd.Filter = append(cmd.Filter, *u.fp)
+		}
+		if u.partialFirst && len(cmd.Filter) == 2 {
+			// (the order of the two filters in the array means nothing)
+			cmd.Filter[0], cmd.Filter[1] = cmd.Filter[1], cmd.Filter[0]
 		}
 	}
 	return cmd
